@@ -61,8 +61,8 @@ theorem execReceive_gov {s s' : State} {blk token funds sender amt msg out}
   · simp at h
   · simp at h; exact execTransfer_gov h.2
 
-theorem connect_gov {s s' : State} {id v cv ord}
-    (h : ibcChannelConnect s id v cv ord = .ok s') : SameGov s s' := by
+theorem connect_gov {s s' : State} {id v cv ord peer}
+    (h : ibcChannelConnect s id v cv ord peer = .ok s') : SameGov s s' := by
   simp [ibcChannelConnect] at h
   obtain ⟨_, _, rfl⟩ := h
   exact ⟨rfl, rfl, rfl, rfl⟩
@@ -260,10 +260,12 @@ theorem exec_gov_other {w w' : World} {blk op o} (h : w.exec blk op = .ok (w', o
   | allow snd c g => exact absurd rfl (h1 snd c g)
   | updateAdmin snd a => exact absurd rfl (h2 snd a)
   | migrate g => exact absurd rfl (h3 g)
-  | connect id v cv ord =>
+  | connect id v cv ord peer =>
     simp [World.exec] at h
     obtain ⟨s, hs, rfl, _⟩ := h
     exact connect_gov hs
+  | chanOpen v cv ord => obtain ⟨rfl, _⟩ := exec_chanOpen h; exact SameGov.refl _
+  | chanClose id => exact (exec_chanClose h).elim
   | transferNative snd funds msg =>
     simp [World.exec] at h
     obtain ⟨_, w1, hw1, s, out, hs, rfl, _⟩ := h
@@ -665,7 +667,9 @@ theorem execRaw_cases {w w' : World} {blk : Block} {op : Op} {o : Outcome} (h : 
     simp [World.execRaw] at h
     obtain ⟨_, s, out, hs, rfl, _⟩ := h
     exact execReceive_gov hs
-  | connect id v cv ord => exact Or.inl h
+  | connect id v cv ord peer => exact Or.inl h
+  | chanOpen v cv ord => exact Or.inl h
+  | chanClose id => exact Or.inl h
   | allow snd c g => exact Or.inl h
   | updateAdmin snd a => exact Or.inl h
   | migrate g => exact Or.inl h
